@@ -95,6 +95,41 @@ func (b *Breaker) RollbackProbe() {
 	}
 }
 
+// Clone returns an independent copy of the machine.
+func (b *Breaker) Clone() *Breaker {
+	c := *b
+	w := *b.win
+	w.Evs = append(w.Evs[:0:0], b.win.Evs...)
+	c.win = &w
+	c.Events = append(c.Events[:0:0], b.Events...)
+	return &c
+}
+
+// Passage is the number of passages to half-open so far.
+func (b *Breaker) Passage() int {
+	n := 0
+	for _, e := range b.Events {
+		if e.From == Open && e.To == HalfOpen {
+			n++
+		}
+	}
+	return n
+}
+
+// CompleteIgnored feeds a completed request that the machine does not act on (a straggler from before the
+// current passage to half-open, under the reading that only probes decide): it is recorded, nothing else.
+func (b *Breaker) CompleteIgnored(now, rt uint64, failed bool) {
+	bad := failed
+	if b.R.Strategy == SlowRatio {
+		bad = rt > b.R.MaxRt
+	}
+	b.win.Add(now, kTotal, 1)
+	if bad {
+		b.win.Add(now, kBad, 1)
+	}
+	b.win.Prune(now, 3*b.R.StatMs)
+}
+
 // Complete feeds a completed request.
 func (b *Breaker) Complete(now, rt uint64, failed bool) {
 	b.Band = false
